@@ -98,6 +98,18 @@ CHECKS.update({
         note='Tier A only (in-process); undocumented cmake-format forms are on the unspecified list and skipped (counted).'),
 })
 
+CHECKS.update({
+    'C03': dict(
+        category='exploration', design_ref='DESIGN.md §4 C03',
+        technique='bounded exhaustive enumeration of argument strings (<= 2/3 atoms of a 26-atom alphabet + specials) x every command position and wrapping mode; real meson setup, reference ninja expansion, real /bin/sh and a C argv dumper; real meson test for test arguments',
+        text='Every string is placed as an argument (and as an env value) of custom_target (plain/capture/feed/env/console/depfile), run_target, generator, '
+             'test() (exitcode and tap) and of per-target -D and neutral c_args, link_args, project/global/project-link arguments, with and without '
+             'forced response files; the command text of build.ninja is expanded by the reference Ninja evaluator, run by the real /bin/sh (or decoded '
+             'by a libiberty buildargv port for response files) and the argv/env recorded by a C dumper must equal the given strings after the '
+             'documented rewrites only (backslash -> / in custom-target commands, doubled backslashes in per-target -D, exact && splits).',
+        note='Trusted: refninja ($-escapes, $in/$out quoting), the buildargv port for @file, /bin/sh. POSIX/Ninja only (no VS/Xcode, no cmd.exe quoting). @TEMPLATE@-forming strings and newline-bearing compile/link arguments (refused by meson with an error) are not enumerated.'),
+})
+
 NOT_YET = {}
 
 
